@@ -11,20 +11,19 @@
 (*         automaton with an explicit reject state and once as the         *)
 (*         recursive descent of query_handler.py; TLC proves them equal.   *)
 (*                                                                         *)
-(* The vocabulary is a parameter: a tag label has a set of schema-path     *)
-(* terms and a short form.  Model runs use the abstract vocabulary of      *)
+(* A tag is its casefolded short form (value included) plus the set of     *)
+(* terms on its schema path.  Model runs use the abstract vocabulary of    *)
 (* MC_Query.tla, trace runs the real HED 8.3.0 vocabulary read by          *)
 (* vf/facts.py.                                                            *)
 (***************************************************************************)
 EXTENDS Integers, Sequences, FiniteSets, TLC, SequencesExt
 
-CONSTANTS TermsOf,     \* [label -> set of casefolded terms on the tag's schema path]
-          ShortOf,     \* [label -> casefolded short form, value/extension included]
-          Variant      \* "ok" = the semantics; "nodisjoint"/"asym"/"orleft" = deliberately broken (sensitivity runs)
+CONSTANTS Variant      \* "ok" = the semantics; "nodisjoint"/"asym"/"orleft" = deliberately broken (sensitivity runs)
 
 (* ======================= Part 1: annotations ========================== *)
-\* T = [n, par, lab]: node 0 is the HedString root, nodes 1..n are numbered in PRE-ORDER
-\* (document order), lab[k] = "grp" for a parenthesised group, a vocabulary label for a tag.
+\* T = [n, par, lab, terms]: node 0 is the HedString root, nodes 1..n are numbered in PRE-ORDER
+\* (document order); lab[k] = "grp" for a parenthesised group, the short form for a tag;
+\* terms[k] = the terms on the tag's schema path ({} for a group).
 GRP == "grp"
 IsGrp(T, k) == k = 0 \/ T.lab[k] = GRP
 IsTag(T, k) == k # 0 /\ T.lab[k] # GRP
@@ -36,9 +35,9 @@ Depth(T, k) == Cardinality(AncSelf(T, k)) - 1
 PreOK(T) == \A k \in Nodes(T) : /\ T.par[k] \in 0..(k-1)
                                  /\ IsGrp(T, T.par[k])
                                  /\ (k > 1 => T.par[k] \in AncSelf(T, k-1))
-EmptyTree == [n |-> 0, par |-> <<>>, lab |-> <<>>]
+EmptyTree == [n |-> 0, par |-> <<>>, lab |-> <<>>, terms |-> <<>>]
 \* append one node in document order (the generator of all trees)
-AddNode(T, p, l) == [n |-> T.n + 1, par |-> Append(T.par, p), lab |-> Append(T.lab, l)]
+AddNode(T, p, l, ts) == [n |-> T.n + 1, par |-> Append(T.par, p), lab |-> Append(T.lab, l), terms |-> Append(T.terms, ts)]
 OpenGroups(T) == IF T.n = 0 THEN {0} ELSE {g \in AncSelf(T, T.n) : IsGrp(T, g)}
 
 NodeSeq(T) == [i \in 1..T.n |-> i]
@@ -70,9 +69,9 @@ GEq(T, a, b) == \/ a = b
 AtomOps == {"term", "exact", "prefix"}
 StartsWith(s, p) == Len(p) <= Len(s) /\ SubSeq(s, 1, Len(p)) = p
 TagMatches(T, k, q) ==
-    CASE q.op = "term"   -> q.t \in TermsOf[T.lab[k]]          \* find_tags_with_term: term on the schema path
-      [] q.op = "exact"  -> q.t = ShortOf[T.lab[k]]            \* find_exact_tags: the exact tag
-      [] q.op = "prefix" -> StartsWith(ShortOf[T.lab[k]], q.t) \* find_wildcard_tags: short-form prefix
+    CASE q.op = "term"   -> q.t \in T.terms[k]         \* find_tags_with_term: term on the schema path
+      [] q.op = "exact"  -> q.t = T.lab[k]           \* find_exact_tags: the exact tag
+      [] q.op = "prefix" -> StartsWith(T.lab[k], q.t) \* find_wildcard_tags: short-form prefix
 MatchTags(T, q) == {k \in Nodes(T) : IsTag(T, k) /\ TagMatches(T, k, q)}
 
 RECURSIVE HasWild(_), HasNeg(_), WellFormed(_)
@@ -178,7 +177,8 @@ LawAndDistinctTags(T, A) == LET E == Res(T, A) IN
 Relabel(T, pi) == [n |-> T.n,
                    par |-> [k \in 1..T.n |-> LET o == CHOOSE j \in 1..T.n : pi[j] = k
                                              IN IF T.par[o] = 0 THEN 0 ELSE pi[T.par[o]]],
-                   lab |-> [k \in 1..T.n |-> T.lab[CHOOSE j \in 1..T.n : pi[j] = k]]]
+                   lab |-> [k \in 1..T.n |-> T.lab[CHOOSE j \in 1..T.n : pi[j] = k]],
+                   terms |-> [k \in 1..T.n |-> T.terms[CHOOSE j \in 1..T.n : pi[j] = k]]]
 IsPerm(T, pi) == /\ DOMAIN pi = 1..T.n
                  /\ \A k \in 1..T.n : pi[k] \in 1..T.n
                  /\ \A j, k \in 1..T.n : pi[j] = pi[k] => j = k
@@ -303,7 +303,8 @@ RGrp(ts, p, len) ==
 RDAccepts(ts, len) == LET r == ROr(ts, 0, len) IN r.ok /\ r.pos = Len(ts)
 
 (* =================== state machines (generators) ====================== *)
-CONSTANTS Labels,      \* tag labels used when growing annotations
+CONSTANTS Labels,      \* tags (short forms) used when growing annotations
+          LabelTerms,  \* [tag -> set of casefolded terms on its schema path]
           MaxNodes, MaxDepth,
           Alphabet,    \* lexemes used when growing query texts
           MaxToks
@@ -316,7 +317,7 @@ InitTrees == tree = EmptyTree /\ toks = <<>>
 Grow == /\ tree.n < MaxNodes
         /\ \E p \in OpenGroups(tree), l \in Labels \cup {GRP} :
               /\ Depth(tree, p) + 1 <= MaxDepth
-              /\ tree' = AddNode(tree, p, l)
+              /\ tree' = AddNode(tree, p, l, IF l = GRP THEN {} ELSE LabelTerms[l])
         /\ UNCHANGED toks
 SpecTrees == InitTrees /\ [][Grow]_vars
 
